@@ -232,7 +232,9 @@ META = {
    technique='Coq invariant proof over Manifest loading rounds + differential tamper matrix on realised trees',
    level_text='Proved in Coq for any nesting depth and any number of loading rounds: every loaded Manifest other than the top-level one is named by a MANIFEST entry '
               'of the file of a loaded Manifest and its stored bytes matched that entry (size + every listed checksum) before it was parsed; a non-matching '
-              'sub-Manifest is never loaded. That every API consults only loaded Manifests is by construction of the model and checked by the tamper matrix.',
+              'sub-Manifest is never loaded. Any history of reading operations on one loader object (entry lookup, single-path verification, assert_path_verifies, DIST and TIMESTAMP lookup, '
+              'directory verification with any handler) keeps that invariant, and the entry a lookup answers with belongs to a Manifest that is loaded, hence top-level or vouched for, at that moment '
+              '(C02_reading_keeps_chain, C02_lookup_answers_from_accepted, C02_dist_lookup_answers_from_accepted; Proofs/ChainOps.v). The update side loads without verification by design (verify=False) and is outside C02.',
    level_note='About Model/Loader.v; "always detected" means: differs in size or a listed digest (no hash assumption).'),
  'C06': dict(engine='coq+tree', design_ref='DESIGN.md section 5 C06',
    technique='Coq proofs of per-primitive error propagation + fault injection into the real os calls compared with the model',
